@@ -19,6 +19,8 @@ def _agg_expected(inputs_tables, a, b, col, how):
             vals.append((m, cols[col][q]))
     if how == "sum":
         return ssum([ite(m, x, 0) for m, x in vals])
+    if how == "count":
+        return ssum([ite(m, 1, 0) for m, x in vals])
     if how == "max":
         acc = None
         for m, x in vals:
@@ -98,7 +100,7 @@ def merge_real(p, inputs):
         for r, c, x, y in zip(b1, b2, v, w):
             e = exp.setdefault((r, c), [0, None])
             e[0] += x
-            e[1] = y if e[1] is None else (e[1] + y if how == "sum" else max(e[1], y))
+            e[1] = (1 if how == "count" else y) if e[1] is None else (e[1] + y if how == "sum" else (e[1] + 1 if how == "count" else max(e[1], y)))
     pix, attrs = read_pixels_real(out)
     got = {(r, c): [x, y] for r, c, x, y in zip(pix["bin1_id"], pix["bin2_id"], pix["count"], pix["w"])}
     if got != exp or len(pix["bin1_id"]) != len(exp):
@@ -117,8 +119,10 @@ def _merge_cases(tier):
                  ((2, 2), "fixed", (3, 2)), ((2, 2), "variable", (2, 3)), ((2,), "fixed", (1, 1, 1)), ((3,), "even", (2, 1, 2)), ((2, 1), "fixed", (3, 3))]
     for layout, kind, Ks in specs:
         for upper in (True, False):
-            for how in ("sum", "max"):
-                if how == "max" and (len(Ks) > 2 or not upper):
+            for how in ("sum", "max", "count"):
+                if how != "sum" and (len(Ks) > 2 or not upper):
+                    continue
+                if how == "count" and tier == "quick" and list(Ks) != [1, 1] and list(Ks) != [2, 1]:
                     continue
                 out.append(dict(layout=list(layout), kind=kind, Ks=list(Ks), upper=upper, agg=how))
     # inputs whose value column has different dtypes (int64 then float64, and the reverse order)
@@ -135,16 +139,18 @@ def overflow_sym(p):
     symh5.reset()
     sc = symcooler()
     bins = concrete_bins([2], "even")
-    lo, hi = -2**31, 2**31 - 1
-    v0, v1 = sym_int("v0", 1, hi), sym_int("v1", 1, hi)
+    src, dst = p.get("src", "int32"), p.get("dst")
+    hi = np.iinfo(dst or src).max
+    smax = np.iinfo(src).max
+    v0, v1 = sym_int("v0", 1, smax), sym_int("v1", 1, smax)
     if known_active("F12"):
         assume(v0 + v1 <= hi)
-    u0 = build_cooler_sym(scratch_file("c07o_0.cool"), bins, [0], [1], {"count": [v0]}, True)
-    u1 = build_cooler_sym(scratch_file("c07o_1.cool"), bins, [0], [1], {"count": [v1]}, True)
+    u0 = build_cooler_sym(scratch_file("c07o_0.cool"), bins, [0], [1], {"count": [v0]}, True, dtypes={"count": src})
+    u1 = build_cooler_sym(scratch_file("c07o_1.cool"), bins, [0], [1], {"count": [v1]}, True, dtypes={"count": src})
     out = scratch_file("c07o_out.cool")
     cover("exceeds_int32", v0 + v1 > hi)
     try:
-        sc.merge_coolers(out, [u0, u1], mergebuf=10)
+        sc.merge_coolers(out, [u0, u1], mergebuf=10, **({"dtypes": {"count": np.dtype(dst)}} if dst else {}))
     except (ValueError, OverflowError):
         prove(v0 + v1 > hi, "merge refused although the aggregate fits the output type")
         return ["raises", "ValueError"]
@@ -157,13 +163,14 @@ def overflow_real(p, inputs):
     import cooler
     bins = concrete_bins([2], "even")
     v0, v1 = inputs["v0"], inputs["v1"]
-    u0 = build_cooler_real(scratch_file("c07o_0.cool"), bins, [0], [1], {"count": [v0]}, True)
-    u1 = build_cooler_real(scratch_file("c07o_1.cool"), bins, [0], [1], {"count": [v1]}, True)
+    src, dst = p.get("src", "int32"), p.get("dst")
+    u0 = build_cooler_real(scratch_file("c07o_0.cool"), bins, [0], [1], {"count": [v0]}, True, dtypes={"count": src})
+    u1 = build_cooler_real(scratch_file("c07o_1.cool"), bins, [0], [1], {"count": [v1]}, True, dtypes={"count": src})
     out = scratch_file("c07o_out.cool")
     try:
-        cooler.merge_coolers(out, [u0, u1], mergebuf=10)
+        cooler.merge_coolers(out, [u0, u1], mergebuf=10, **({"dtypes": {"count": np.dtype(dst)}} if dst else {}))
     except (ValueError, OverflowError):
-        if v0 + v1 <= 2**31 - 1:
+        if v0 + v1 <= np.iinfo(dst or src).max:
             raise OracleFailure("merge refused although the aggregate fits the output type")
         return ["raises", "ValueError"]
     pix, attrs = read_pixels_real(out)
@@ -248,7 +255,7 @@ CHECKS = [
           bounds=dict(quick="k<=3 inputs, K<=2 pixels each, n<=3 bins, mergebuf 1..total+1, sum and max", thorough="k<=3, K<=3 each, n<=4"),
           stubs=("E3 in-memory h5py model", "E4 pandas models (concat, groupby-aggregate)", "inputs constructed in the store under the C02 invariant"),
           timeout=3400, split_depth=9),
-    Check("overflow", lambda tier: [dict()], overflow_sym, overflow_real, labels=("exceeds_int32",) if not known_active("F12") else (),
+    Check("overflow", lambda tier: [dict(), dict(src="uint32", dst="int32"), dict(src="int32", dst="int16"), dict(src="uint16", dst="uint16")], overflow_sym, overflow_real, labels=("exceeds_int32",) if not known_active("F12") else (),
           doc="two int32 inputs with arbitrary positive counts: stored aggregate == exact sum or the merge is refused",
           bounds=dict(values="full positive int32 range")),
     Check("compat", _compat_cases, compat_sym, compat_real, labels=("tables_differ", "tables_equal"),
